@@ -30,6 +30,13 @@ def make_leaf(r, dtype, ch, style):
         elif style == "checker":
             a[::2, 1::2] = np.nan
             a[1::2, ::2] = np.nan
+        elif style in ("inf", "-inf"):
+            # infinite values are defined values like any other: a block holding one averages to it
+            v = np.inf if style == "inf" else -np.inf
+            a[r.rand(256, 256) < 0.02] = v
+            a[r.rand(256, 256) < 0.2] = np.nan
+            if r.rand() < 0.3:
+                a[:] = v
     else:
         if np.dtype(dtype).itemsize == 4:
             a = r.randint(2 ** 24, 2 ** 30, size=shape).astype(dtype)      # beyond single-precision integers
@@ -93,7 +100,7 @@ def _cascade_target(base, fmt, depth, parallel, via_cli=None):
     from toasty.merge import cascade_images, averaging_merger
     import toasty.par_util
     toasty.par_util.SHOW_INFORMATIONAL_MESSAGES = False
-    if via_cli:
+    if isinstance(via_cli, str):
         # the same process has loaded an image with `--black-to-transparent` before (an earlier `tile-study` run in a script or a
         # notebook); that option belongs to that loader only
         import argparse
@@ -101,7 +108,7 @@ def _cascade_target(base, fmt, depth, parallel, via_cli=None):
         ImageLoader.create_from_args(argparse.Namespace(black_to_transparent=True, colorspace_processing="srgb", psd_single_layer=None, crop=None))
     with warnings.catch_warnings():
         warnings.simplefilter("ignore")
-        if via_cli:
+        if isinstance(via_cli, str):
             # the command-line entry point: `toasty cascade --start D [--format F] --parallelism P DIR`
             from toasty import cli
             args = ["cascade", "--start", str(depth), "--parallelism", str(parallel)]
@@ -109,6 +116,11 @@ def _cascade_target(base, fmt, depth, parallel, via_cli=None):
                 args += ["--format", fmt]
             sys.stdout = sys.stderr = open(os.devnull, "w")
             cli.entrypoint(args + [base])
+        elif isinstance(via_cli, tuple) and via_cli[0] == "filter":
+            # a tile filter that accepts every populated tile (the route `tile_fits` takes for TOAST output)
+            acc = via_cli[1]
+            pio = PyramidIO(base, default_format=fmt)
+            cascade_images(pio, depth, averaging_merger, parallel=parallel, tile_filter=lambda t: (t.pos.n, t.pos.x, t.pos.y) in acc)
         else:
             pio = PyramidIO(base, default_format=fmt)
             cascade_images(pio, depth, averaging_merger, parallel=parallel)
@@ -163,13 +175,26 @@ def main():
             depth = rng.choice([1, 2, 2, 3]) if h.deep else rng.choice([1, 2, 2])
             nleaf = 4 ** depth
             dens = rng.choice([0.15, 0.5, 0.9, 1.0])
-            style = rng.choice(["full", "holes", "band", "checker"])
+            style = rng.choice(["full", "holes", "band", "checker"] + (["inf", "-inf"] if np.dtype(dtype).kind == "f" else []))
             leaves = {}
             r = np.random.RandomState(rng.randint(0, 2 ** 31 - 1))
+            filtered_case = (ci % 3 != 0 and ci % 2 == 1)
+            onechild = rng.random() < 0.35 or filtered_case
+            if filtered_case and depth < 2:
+                depth = 2
+                nleaf = 4 ** depth
             for x in range(2 ** depth):
                 for y in range(2 ** depth):
-                    if rng.random() < dens:
+                    if not onechild and rng.random() < dens:
                         leaves[(x, y)] = make_leaf(r, dtype, ch, style)
+            if onechild:
+                # parents with a single child each, in any of the four quadrants
+                q = rng.randrange(4)
+                for px in range(2 ** (depth - 1)):
+                    for py_ in range(2 ** (depth - 1)):
+                        if rng.random() < 0.8:
+                            leaves[(2 * px + (q & 1), 2 * py_ + (q >> 1))] = make_leaf(r, dtype, ch, style)
+                            q = (q + 1) % 4
             if not leaves:
                 leaves[(rng.randrange(2 ** depth), rng.randrange(2 ** depth))] = make_leaf(r, dtype, ch, style)
             results = {}
@@ -182,8 +207,18 @@ def main():
                         pio.write_image(Pos(depth, x, y), Image.from_array(a.copy()))
                 # a third of the cascades go through the command line (`--format` given, or guessed from the files)
                 via_cli = None if ci % 3 else ("format" if (ci // 3) % 2 == 0 else "guess")
+                if via_cli is None and ci % 2 == 1:
+                    # ... and a third pass a tile filter accepting exactly the populated tiles and their ancestors (plus a few others)
+                    acc = set()
+                    for (x, y) in leaves:
+                        for lv in range(depth + 1):
+                            acc.add((lv, x >> (depth - lv), y >> (depth - lv)))
+                    for _ in range(rng.randrange(3)):
+                        lv = rng.randint(1, depth)
+                        acc.add((lv, rng.randrange(2 ** lv), rng.randrange(2 ** lv)))
+                    via_cli = ("filter", frozenset(acc))
                 st = run_cascade(base, fmt, depth, par, via_cli=via_cli)
-                h.count("cascade", f"{kind}/par{par}" + (f"/cli-{via_cli}" if via_cli else ""))
+                h.count("cascade", f"{kind}/par{par}" + (f"/cli-{via_cli}" if isinstance(via_cli, str) else "/filtered" if via_cli else ""))
                 if st != "ok":
                     h.violation(f"run:{par}", f"cascade_images({kind}, depth {depth}, parallel={par}) {st}", input={"kind": kind, "depth": depth, "leaves": sorted(leaves), "parallel": par})
                     continue
